@@ -7,7 +7,8 @@ d="/verif/seeded/$name"
 props="$*"
 [ -n "$props" ] || props=$(python3 -c "import json;print(json.load(open('$d/meta.json'))['property'])")
 if [ -n "$(git -C /repo status --porcelain --untracked-files=no)" ]; then echo "/repo not clean"; exit 2; fi
-trap 'git -C /repo checkout -- . ' EXIT
+export MC_EVIDENCE_DIR="$(mktemp -d /tmp/seed_evidence.XXXXXX)"
+trap 'git -C /repo checkout -- . ; rm -rf "$MC_EVIDENCE_DIR"' EXIT
 git -C /repo apply "$d/patch.diff" || { echo "patch failed"; exit 2; }
 cd /verif
 for p in $props; do
